@@ -914,7 +914,59 @@ func condKey(e edge) (string, bool) {
 		}
 		break
 	}
-	return pureKey(c), want
+	return canonCondKey(c, want, nil)
+}
+
+// canonCondKey: the key and polarity of a pure condition, with the equivalent spellings of "the slice is not empty"
+// (len(x) > 0, len(x) != 0, 0 < len(x), !(len(x) == 0)) brought to one form, so that a guard written one way in a
+// helper is recognised in the spelling its caller uses.
+func canonCondKey(c ssa.Value, want bool, chain []map[ssa.Value]ssa.Value) (string, bool) {
+	c = resolve(c)
+	for {
+		if u, ok := c.(*ssa.UnOp); ok && u.Op == token.NOT {
+			c, want = resolve(u.X), !want
+			continue
+		}
+		break
+	}
+	if bo, ok := c.(*ssa.BinOp); ok {
+		isLen := func(v ssa.Value) bool {
+			call, ok := resolve(v).(*ssa.Call)
+			if !ok {
+				return false
+			}
+			b, ok := call.Common().Value.(*ssa.Builtin)
+			return ok && b.Name() == "len"
+		}
+		isZero := func(v ssa.Value) bool {
+			k, ok := resolve(v).(*ssa.Const)
+			return ok && k.Value != nil && k.Value.Kind() == constant.Int && constant.Sign(k.Value) == 0
+		}
+		x, y, op := bo.X, bo.Y, bo.Op
+		if isZero(x) && isLen(y) {
+			x, y = y, x
+			switch op {
+			case token.LSS:
+				op = token.GTR
+			case token.GEQ:
+				op = token.LEQ
+			case token.GTR:
+				op = token.LSS
+			case token.LEQ:
+				op = token.GEQ
+			}
+		}
+		if isLen(x) && isZero(y) {
+			key := "(" + pureKeyC(x, chain) + " != const:0)"
+			switch op {
+			case token.NEQ, token.GTR:
+				return key, want
+			case token.EQL, token.LEQ:
+				return key, !want
+			}
+		}
+	}
+	return pureKeyC(c, chain), want
 }
 
 // allPathsPass reports whether every feasible path from the function entry to block x takes one of the edges
